@@ -6,7 +6,7 @@ SEQ = "SAT-based bounded model checking (Kani/CBMC) of the real code over symbol
 KM = "; libc replaced by a nondeterministic kernel/descriptor model"
 
 INFO = {
- "C01": dict(level="bounded: every SC interleaving of <=3 threads (1 writer doing 2 stores, 2 readers) within K=3 round-robin rounds of the real half_lock.rs; ghost lifetimes decide use-after-release / double release / release inside an open read section; registry level: every action invocation lies inside an open read section of the data lock",
+ "C01": dict(level="bounded: every SC interleaving of <=3 threads (1 writer doing 2 stores, 2 readers) within K=3 round-robin rounds of the real half_lock.rs; ghost lifetimes decide use-after-release / double release / release inside an open read section; registry level: every action invocation lies inside an open read section of the data lock; the real unregister() (thread 0) against the real dispatcher (thread 1) within K=3 rounds: no invocation of the removed action ends after unregister returned, released exactly once by the remover outside a delivery, nothing invoked after its release; <=2 complete deliveries nested at every shim point of unregister()/unregister_signal() on the removing thread itself",
              note="sequentially consistent interleavings (half_lock.rs declares SeqCst only; weaker orderings are flagged); frees virtualised by stubbing alloc::alloc::dealloc_nonnull; spin iterations that do not advance the round are stutter steps",
              technique=LR),
  "C05": dict(level="bounded: one operation from any valid registry state (<=2 signals, <=3 actions, arbitrary u128 ids) and fixed histories (ids, stale ids, cross-signal, a foreign handler installed before the take-over and the last action removed), compared with a per-signal ordered-list model; the library's handler with SA_RESTART|SA_SIGINFO stays installed",
@@ -15,11 +15,11 @@ INFO = {
  "C06": dict(level="one sequential step from every well-formed channel state is a 5-bounded FIFO push/pop (inductive step), so every sequential history is covered given the representation invariant; nested clause: a complete send nested at any shim point of a send (tag accounting)",
              note="representation invariant assumed for the symbolic pre-state (queue words well-formed, indices partition 1..5 with <=2 in flight); payload u8",
              technique=SEQ),
- "C07": dict(level="bounded: interleavings within K=3 rounds of producers/consumers on the real channel.rs with vector clocks derived from the declared Acquire/Release/Relaxed orderings; destructor counting",
+ "C07": dict(level="bounded: interleavings within K=3 rounds of producers/consumers on the real channel.rs with vector clocks derived from the declared Acquire/Release/Relaxed orderings; destructor counting; two producers also after a sequential send+recv (recycled slot)",
              note="release sequences through RMWs modelled; stale relaxed loads only cause CAS failures, which are injected nondeterministically (<=1); cell contents are not round-versioned, so no cell is reused inside one harness except in the dedicated reuse harness",
              technique=LR + " with happens-before clocks"),
- "C13": dict(level="bounded: real pipe.rs for each descriptor kind at any fill level (capacity 3), bursts <=2, plus three rejection causes",
-             note="descriptor behaviour is a model (EAGAIN iff full and MSG_DONTWAIT/O_NONBLOCK; ENOTSOCK for send on pipes/files)",
+ "C13": dict(level="bounded: real pipe.rs for each descriptor kind at any fill level (capacity 3), bursts <=2, plus three rejection causes; a write that would sleep on a full descriptor is judged where the model cuts the path",
+             note="descriptor behaviour is a model (EAGAIN iff full and MSG_DONTWAIT/O_NONBLOCK; ENOTSOCK for send on pipes/files); release of the descriptor when the refusal is a panic (unwinding) is outside: Kani has no unwinding",
              technique=SEQ + KM),
  "C15": dict(level="bounded: every status (c_int), both registration orders, every arm/disarm/deliver history of length 3 (thorough: 6) through the real dispatcher; _exit / exit / raw SYS_exit (thread only) / SYS_exit_group distinguished by the model",
              note="process termination is a model event (_exit/exit/abort/killed); atexit machinery itself not modelled",
@@ -35,18 +35,18 @@ INFO = {
 NEST = "SAT-based bounded model checking (Kani/CBMC) of the real code with complete operations nested nondeterministically at the shim points of the interrupted code (signal-handler semantics)"
 INFO.update({
  "C02": dict(level="bounded: one delivery runs exactly its signal's actions once each in id order with one read section per snapshot; mutators publish exactly one snapshot iff they changed something; unregister of any (signal,u128 id); <=2 complete deliveries nested at every shim point of register()/unregister() run the old or the new list, never a mixture; a complete register()+delivery of another thread at every point of register() where the writer mutex is free keeps registration order",
-             note="maps/Arc/Once stand-ins; deliveries overlapping a mutation are nested on the mutating thread (signal-handler semantics); for deliveries on other threads the clause composes with the half-lock result of C01",
-             technique=SEQ + KM),
- "C03": dict(level="bounded: deliveries through the real dispatcher into flag, self-pipe wake, conditional shutdown and the iterator's exfiltrating action, pipe at any fill level: no lock, no spin/yield, no allocator call, no release of a last reference, <=12 shim steps, no write that may block; thorough: against a mutator on another thread (Lal-Reps)",
+             note="maps/Arc/Once stand-ins; deliveries overlapping a mutation are nested on the mutating thread (signal-handler semantics); for deliveries on other threads the clause composes with the half-lock result of C01 and is decided directly for one delivery against unregister() on another thread (Lal-Reps K=3, shared with C01)",
+             technique=SEQ + KM + "; " + LR),
+ "C03": dict(level="bounded: deliveries through the real dispatcher into flag, self-pipe wake, conditional shutdown and the iterator's exfiltrating action, pipe at any fill level: no lock, no spin/yield, no allocator call, no release of a last reference, <=12 shim steps, no write that may block (also judged where the model would put the writer to sleep); the raw-siginfo action = Channel::send nested in a recv on a full buffer does not wait; thorough: against a mutator on another thread (Lal-Reps)",
              note="allocator entry points alloc::alloc::alloc / dealloc_nonnull stubbed (positive control harness); user-supplied actions and libc internals are outside",
              technique=SEQ + KM + "; allocator stubs"),
- "C04": dict(level="bounded: for each previous disposition (default, ignore, 1-arg, 3-arg SA_SIGINFO) deliveries before the take-over, at every shim point / system call inside the first registration (the race-fallback window), after it, and inside / after another signal's first registration chain exactly once, first, with the right convention and the kernel's arguments",
+ "C04": dict(level="bounded: for each previous disposition (default, ignore, 1-arg, 3-arg SA_SIGINFO) deliveries before the take-over, at every shim point / system call inside the first registration (the race-fallback window), after it, inside / after another signal's first registration, after the last action was removed (by id, by signal) and after a re-registration chain exactly once, first, with the right convention and the kernel's arguments",
              note="integer->fn-pointer transmutes hand out logging trampolines; arrival on another thread during the first registration: thorough tier (Lal-Reps K=3)",
              technique=SEQ + KM),
- "C08": dict(level="bounded: send/recv from six concrete channel states (2 queued, 4 queued, full) with a complete send or recv nested before any shim operation (symbolic position) or right after any successful CAS (enumerated) and one spurious weak-CAS failure; up to three spurious failures without nesting: no reachable panic, no waiting (CAS loops bounded, spin_loop goes through the shim), own steps bounded, tags conserved",
+ "C08": dict(level="bounded: send/recv from six concrete channel states (2 queued, 4 queued, full) with a complete send or recv nested before any shim operation (symbolic position) or right after any successful CAS (enumerated), or at every point of the outer operation in turn (enumerated, incl. a recv of the consumer inside a send) and one spurious weak-CAS failure; up to three spurious failures without nesting: no reachable panic, no waiting (CAS loops bounded, spin_loop goes through the shim), own steps bounded, tags conserved",
              note="representation invariant assumed for the pre-state; <=1 index in flight; 1 nested operation",
              technique=NEST),
- "C09": dict(level="bounded: a complete delivery nested anywhere in a consumer iteration, and a complete consumer iteration of another thread nested anywhere in the delivering action: the consumer (the replicated composition of poll_pending+pending, and the real SignalsInfo::wait) never sleeps on the empty self-pipe with a delivered signal unreported, and obtains a later delivery too",
+ "C09": dict(level="bounded: a complete delivery nested anywhere in a consumer iteration, and a complete consumer iteration of another thread nested anywhere in the delivering action: the consumer (the replicated composition of poll_pending+pending, the real SignalsInfo::wait, and SignalIterator::poll_signal with the blocking callback = forever()) never sleeps on the empty self-pipe with a delivered signal unreported, and obtains a later delivery too",
              note="consumer = SignalDelivery::poll_pending + pending() composed as SignalsInfo::wait does; 4-entry slot table; descriptor model",
              technique=NEST + KM),
  "C10": dict(level="bounded: histories of deliveries (watched / unwatched signal) and pending() batches: yields <= deliveries, nothing unwatched, nothing twice, also under nested deliveries and a signal named twice in the constructor; WithRawSiginfo end to end: 7 deliveries with symbolic payloads, every record a faithful copy of one delivery, in delivery order, at most one per delivery, buffer overflow, a delivery nested at the cell-access / after-CAS boundaries of the first two loads of a batch",
